@@ -134,12 +134,13 @@ def gen_gamma_spec(rng, regime=None, vects=None, grid=None, dup=None, delta=None
         regime = rng.choice(['dyadic', 'generic'])
     n1, n2 = grid if grid else rng.choice(GRIDS_DYADIC if regime == 'dyadic' else GRIDS_GENERIC)
     dup = rng.random() < 0.35 if dup is None else dup
-    if dup:
-        u1 = [i / n1 for i in range(n1 + 1)]
-        u2 = [j / n2 for j in range(n2 + 1)]
-    else:
-        u1 = [i / n1 for i in range(n1)]
-        u2 = [j / n2 for j in range(n2)]
+    if dup is True:
+        # how the a = 1 edge is duplicated: both directions | one direction only | both, with the edge coordinate a
+        # hair below 1 (1 - 2^-40: what a rounded text file holds; np.isclose still takes it for the edge)
+        dup = rng.choice([True, True, 'a1', 'a2', 'fuzzy'])
+    edge = 1.0 - 2.0 ** -40 if dup == 'fuzzy' else 1.0
+    u1 = [i / n1 for i in range(n1)] + ([edge] if dup in (True, 'a1', 'fuzzy') else [])
+    u2 = [j / n2 for j in range(n2)] + ([edge] if dup in (True, 'a2', 'fuzzy') else [])
     a1vect, a2vect, box, tag = vects if vects else rng.choice(VECTS)
     ph = [rng.uniform(0, 1) for _ in range(4)]
     amp = [cm.dyadic(rng, 0.0, 2.0, 3) for _ in range(4)]
@@ -156,7 +157,7 @@ def gen_gamma_spec(rng, regime=None, vects=None, grid=None, dup=None, delta=None
     cache = {}
     for p in u1:
         for q in u2:
-            key = (round(p % 1.0, 12) % 1.0, round(q % 1.0, 12) % 1.0)
+            key = (round(p % 1.0, 9) % 1.0, round(q % 1.0, 9) % 1.0)
             if key not in cache:
                 v = e(p, q) + noise * rng.uniform(-1, 1)
                 if regime == 'dyadic':
@@ -166,6 +167,11 @@ def gen_gamma_spec(rng, regime=None, vects=None, grid=None, dup=None, delta=None
             a2.append(q)
             E.append(cache[key][0])
             D.append(cache[key][1])
+    if rng.random() < 0.3:
+        # rows in arbitrary order (a data file need not be sorted)
+        order = list(range(len(a1)))
+        rng.shuffle(order)
+        a1, a2, E, D = ([t[i] for i in order] for t in (a1, a2, E, D))
     use_delta = rng.random() < 0.4 if delta is None else delta
     return {'regime': regime, 'n1': n1, 'n2': n2, 'dup': dup, 'a1vect': list(a1vect), 'a2vect': list(a2vect),
             'box': box, 'tag': tag, 'a1': a1, 'a2': a2, 'E': E, 'delta': D if use_delta else None}
@@ -301,9 +307,16 @@ RULE = ('gamma surfaces: grids n1 x n2 in {2..32} incl. strongly anisotropic one
         'points), sampled nodes plus integer periods, blend-strip edges; SDVPN: isotropic, cubic and hexagonal Volterra solutions '
         'in 7 orientations, random disregistry profiles on uniform grids, random tau (row 2 non-zero)/alpha (1-3 coefficients)/'
         'beta (non-symmetric)/cut-off, all 16 combinations of fullstress x cdiffelastic x cdiffsurface x cdiffstress per system; '
-        'edit sequences of 2-5 steps on ONE object (setters, solve(**kwargs), load from DataModelDict/JSON/XML, same-length '
-        'profile on a rescaled grid) with every term evaluated after every step; distinct = distinct canonical driver line / '
-        'oracle case; non-trivial = non-error reply with at least one non-zero input')
+        'edit sequences of 2-5 steps on ONE object (setters incl. obj.x / obj.disregistry, solve(**kwargs), load from '
+        'DataModelDict/JSON/XML written in Å|nm|pm and GPa|MPa|eV/Å^3, same-length profile on a rescaled grid) with every term '
+        'method, disldensity and check_energies CALLED WITH EVERY SUBSET of (x, disregistry) after every step; ONE GammaSurface '
+        'object under reloads: query in every form -> set() / model(model=<dm|json|xml, 3 length x 3 energy units>) with other '
+        'vectors of the same plane | rescaled box | other cell | other sampling | with/without delta -> query again (model object, '
+        'exact oracle and a fresh object); 3-index and 4-index (Miller-Bravais) shift vectors; duplicated a=1 edge in both / one '
+        'direction / a hair below 1; rows in grid or shuffled order; 2-D query arrays; pos= / x=,y= together with a1vect=/a2vect=; '
+        'disldensity on non-uniform grids; arctangent grids given by two of (xmax, xstep, xnum) as decimal literals with the '
+        'float quotient just below / above the integer; distinct = distinct canonical driver line / oracle case; non-trivial = '
+        'non-error reply with at least one non-zero input')
 
 
 def _ask(ctx, line, key, info):
@@ -1556,6 +1569,27 @@ def _cmp(a, b, rtol, atol):
     return None
 
 
+def o_fit_cond(spec):
+    """condition number of the multiquadric system of the DOCUMENTED fit, set up independently: the sampled points
+    without the duplicated a = 1 edge, tiled 3 x 3, kept from one sample below 0 to one sample above 1 in each
+    direction; phi(r) = sqrt((r/eps)^2 + 1), eps = (bounding-box area / N)^(1/2) (scipy Rbf defaults).  The
+    interpolation tolerance is derived from THIS number, not from whatever system the implementation solved."""
+    np = _np()
+    rows = [(a, b) for a, b in zip(spec['a1'], spec['a2']) if abs(a - 1.0) > 1e-6 and abs(b - 1.0) > 1e-6]
+    pts = np.array([(a + i, b + j) for i in (-1, 0, 1) for j in (-1, 0, 1) for a, b in rows])
+    keep = np.ones(len(pts), dtype=bool)
+    for c in (0, 1):
+        u = np.unique(np.round(pts[:, c], 9))
+        lo = u[u < -1e-6].max() - 1e-6
+        hi = u[u > 1 + 1e-6].min() + 1e-6
+        keep &= (pts[:, c] >= lo) & (pts[:, c] <= hi)
+    pts = pts[keep]
+    edges = pts.max(axis=0) - pts.min(axis=0)
+    eps = math.sqrt(float(np.prod(edges)) / len(pts))
+    r = np.sqrt(((pts[:, None, :] - pts[None, :, :]) ** 2).sum(axis=2))
+    return float(np.linalg.cond(np.sqrt((r / eps) ** 2 + 1)))
+
+
 def chk_gamma(ctx, case):
     """gamma-surface clauses: reproduces its input at the sampled shifts, periodic, the three kinds of
     coordinates interchangeable (one or many positions), conversions mutual inverses, data-model round trip."""
@@ -1632,8 +1666,7 @@ def _gamma_clauses(ctx, top, case, g, when, fresh=None, loose=False):
             bad('state', f'delta(a1=0.25, a2=0.375) = {r!r} although the object holds no plane-separation data')
     scale = max(1.0, max(abs(v) for v in spec['E']))
     L = max(1.0, max(abs(float(t)) for t in A1 + A2))
-    fit = getattr(g, '_GammaSurface__E_gsf_fit', None)
-    cond = float(np.linalg.cond(np.asarray(fit.A))) if fit is not None and hasattr(fit, 'A') else 1e6
+    cond = o_fit_cond(spec)
     # interpolation: backward-stable solve of the Rbf system, error <= c*eps*cond; evaluation at a point moved by
     # an ulp changes the value by <= Lipschitz*ulp, covered by 1e-9
     tolE = 256 * EPS * cond * scale + 1e-9 * scale
@@ -1710,7 +1743,7 @@ def _gamma_clauses(ctx, top, case, g, when, fresh=None, loose=False):
     # a1vect=) may land on either side: such points are exempt from the value comparisons below (not from the
     # conversions), exactly the discontinuity the model places there.
     c1_, c2_ = (1 - max(spec['a1'])) / 2, (1 - max(spec['a2'])) / 2
-    inner = np.array([not ((c1_ == 0 and abs(a - round(a)) < 1e-9) or (c2_ == 0 and abs(b_ - round(b_)) < 1e-9))
+    inner = np.array([not ((c1_ < 1e-9 and abs(a - round(a)) < 1e-9) or (c2_ < 1e-9 and abs(b_ - round(b_)) < 1e-9))
                       for a, b_ in zip(q1, q2)])
     # -- (3)+(4) conversions against the exact oracle, mutual inverses, interchangeable entry points
     P = [o_pos(A1, A2, (FF(a), FF(b))) for a, b in zip(q1, q2)]
@@ -1788,7 +1821,7 @@ def _gamma_clauses(ctx, top, case, g, when, fresh=None, loose=False):
                               ('a2vect=v2-2v1', {'a2vect': v2 - 2 * v1}, (q1 - 2 * q2, q2))):
         want = call(g.E_gsf, a1=np.array(o1, dtype=float), a2=np.array(o2, dtype=float))
         r = call(g.E_gsf, a1=q1.copy(), a2=q2.copy(), **kw)
-        inn = np.array([not ((c1_ == 0 and abs(a - round(a)) < 1e-9) or (c2_ == 0 and abs(b_ - round(b_)) < 1e-9))
+        inn = np.array([not ((c1_ < 1e-9 and abs(a - round(a)) < 1e-9) or (c2_ < 1e-9 and abs(b_ - round(b_)) < 1e-9))
                         for a, b_ in zip(np.ravel(o1), np.ravel(o2))])
         w = str(r) if isinstance(r, Raised) else str(want) if isinstance(want, Raised) else _cmp(np.asarray(r)[inn], np.asarray(want)[inn], 0, tolE)
         if w:
@@ -1800,7 +1833,7 @@ def _gamma_clauses(ctx, top, case, g, when, fresh=None, loose=False):
     Pof = np.array([[float(t) for t in p_] for p_ in Po])
     XYo = np.array([o_xy(A1, A2, Bo1, p_) for p_ in Po])
     want = call(g.E_gsf, a1=q1.copy(), a2=(q1 + q2).copy())
-    inn = np.array([not ((c1_ == 0 and abs(a - round(a)) < 1e-9) or (c2_ == 0 and abs(b_ - round(b_)) < 1e-9)) for a, b_ in zip(q1, q1 + q2)])
+    inn = np.array([not ((c1_ < 1e-9 and abs(a - round(a)) < 1e-9) or (c2_ < 1e-9 and abs(b_ - round(b_)) < 1e-9)) for a, b_ in zip(q1, q1 + q2)])
     for nm, kw in (('pos=P', {'pos': Pof.copy()}), ('x=, y=', {'x': XYo[:, 0].copy(), 'y': XYo[:, 1].copy()})):
         for nv, kv in (('a1vect=v1+v2, a2vect=v2', {'a1vect': v1 + v2, 'a2vect': v2}), ('a1vect=v1+v2', {'a1vect': v1 + v2})):
             r = call(g.E_gsf, **kw, **kv)
@@ -2600,8 +2633,10 @@ def replay(ctx, payload):
 
 MANIFEST = {
     'text': 'Lean 4 theorems about a hand-written model of GammaSurface (3x3 tiling and fit window, wrap, edge blend, the three '
-            'kinds of query, coordinate conversions incl. the default plotting axis, data-model record) and of SDVPN (density, six '
-            'energy terms, total, object state under setters / solve(**kwargs) / load, embedding of the optimiser output) and of the '
+            'kinds of query with and without the a1vect/a2vect keywords, coordinate conversions incl. the default plotting axis, '
+            'data-model record, the object under set()/model(model=) reloads, 4-index vectors) and of SDVPN (density, six '
+            'energy terms, total, object state under setters / solve(**kwargs) / load, method calls with any subset of the '
+            'optional arguments, embedding of the optimiser output) and of the '
             'arctangent profiles; tied to the real code on every run by a differential correspondence (recorded Rbf values as the '
             'table of f; one real object and one model object under the same edit sequences) and a failing-input search with exact '
             'Fraction oracles of each documented formula',
